@@ -16,13 +16,13 @@ import tgen
 
 PROP = "C10"
 LEVEL = "proof"
-INCLUDE = ['w4s_c10']   # wave 4 (lead, integration): generated skeletons of hosvd mode loop / tucker_als main loop: bridge theorems + replay streams
+INCLUDE = ['w4s_c10', 'w4s_c10c']   # wave 4 (lead, integration): generated skeletons of hosvd mode loop / tucker_als main loop: bridge theorems + replay streams
 GEN_UNITS = ["GenHosvd", "GenTuckerAls"]      # control-flow skeletons (tools/pyx2v_skel.py) of hosvd's mode loop (Props/C10Gen.v is stated over it) and of the main part of tucker_als (Props/C10W5.v)
 SHARD = 6
-COQ_TARGETS = ["Props/C10.vo", "Props/C10Loop.vo", "Props/C10W3b.vo", "Props/C10W4.vo", "Props/C10Gen.vo", "Props/C10W5.vo", "Proofs/W4SHosvd.vo", "Proofs/W4SHosvdR.vo", "Proofs/W4STucker.vo", "Model/C10Check.vo", "Model/Harness.vo"]
-THEOREM_FILES = ["Props/C10.v", "Props/C10Loop.v", "Props/C10W3b.v", "Props/C10W4.v", "Props/C10Gen.v", "Props/C10W5.v"]
+COQ_TARGETS = ["Props/C10.vo", "Props/C10Loop.vo", "Props/C10W3b.vo", "Props/C10W4.vo", "Props/C10Gen.vo", "Props/C10W5.vo", "Props/C10W5k.vo", "Proofs/W4SHosvd.vo", "Proofs/W4SHosvdR.vo", "Proofs/W4STucker.vo", "Model/C10Check.vo", "Model/C10KernelCheck.vo", "Proofs/C10Kernel.vo", "Model/Harness.vo"]
+THEOREM_FILES = ["Props/C10.v", "Props/C10Loop.v", "Props/C10W3b.v", "Props/C10W4.v", "Props/C10Gen.v", "Props/C10W5.v", "Props/C10W5k.v"]
 COQ_IMPORTS = ("From Coq Require Import List ZArith Bool QArith Qcanon.\n"
-               "From PV Require Import Base.Index Np.Array Model.Sparse Model.Repr Model.Harness Model.C10Tucker Model.C10Check.\n")
+               "From PV Require Import Base.Index Np.Array Model.Sparse Model.Repr Model.Harness Model.C10Tucker Model.C10Check Model.C10KernelCheck.\n")
 RULE = ("integer tensors <= 4x3x3 (1- to 4-way, singleton modes, low-rank + noise, full random, graded spectra with component weights "
         "2^(g*j)) times a power of two 2^sexp, sexp in {-40..40} and sexp with ||2^sexp X||^2 just above 2^-52 (entries down to 1e-12 / up to 1e12: every hosvd / tucker_als case also runs "
         "as a scaled copy; the returned core is de-scaled exactly by 2^-sexp before the exact recomputation, so every checked relation "
@@ -33,7 +33,7 @@ RULE = ("integer tensors <= 4x3x3 (1- to 4-way, singleton modes, low-rank + nois
         "rank vectors within the mode sizes (all given, all automatic, mixed given/automatic), sequential True/False, all/random mode "
         "orders, the caller's ranks array observed after the call, tucker_als with list/nvecs/random init, maxiters 0..4 (0 must be rejected: finding C10-N01), stoptol {0, 1e-4, 1e-2, 0.3}: the stop rule is evaluated in Coq "
         "(transliterated loop replaying the per-iteration fits = reported fits of the runs truncated at 1..k iterations, cross-checked with the lines printed by the run itself); "
-        "wave 4 variants of sampled cases: data held C-contiguous / as a non-contiguous view / in a tensor grown by out-of-bounds assignment, second call on the same object (data array must stay untouched), dimorder=None, scalar rank, init='eigs', init = hosvd factors, verbosity=10; wave 5: tall unfoldings (requested rank above the column count of the — sequentially shrunk — unfolding), int32 / int16 data near the top of the holder's range; holders int8 and bool (logical tensors: same answers as the float64 holder of the same 0/1 values; repaired finding C10-N03, /repo 08011d5); "
+        "wave 4 variants of sampled cases: data held C-contiguous / as a non-contiguous view / in a tensor grown by out-of-bounds assignment, second call on the same object (data array must stay untouched), dimorder=None, scalar rank, init='eigs', init = hosvd factors, verbosity=10; wave 5: tall unfoldings (requested rank above the column count of the — sequentially shrunk — unfolding), int32 / int16 data near the top of the holder's range; the two ttm kernels of tucker_als' main loop as called (op tals_kernels: exclude_dims / single mode, transpose=True, integer factor lists, U[n] = None); holders int8 and bool (logical tensors: same answers as the float64 holder of the same 0/1 values; repaired finding C10-N03, /repo 08011d5); "
         "non-trivial = more than one cell per two modes and a truncation is possible; distinct = distinct (op,args)")
 CORRESPONDENCE_ONLY = ["eigen-decomposition (LAPACK eigh / ARPACK eigsh): certificate-checked oracle (W orthogonal, G W = W diag(mu) on the Gram matrix of the "
                        "tensor hosvd looks at) — exactly the hypotheses run_ok / emode_ok of C10_gen_hosvd_error_bound / C10_concrete_hosvd_eigen_bound and nvecs_eigen of "
@@ -41,9 +41,11 @@ CORRESPONDENCE_ONLY = ["eigen-decomposition (LAPACK eigh / ARPACK eigsh): certif
                        "eigen-oracle contract (hooi_steps) of the older abstract-space theorems C10_hooi_monotone / C10_hooi_fit_monotone",
                        "the numeric kernels of the GENERATED hosvd loop (Gen/GenHosvd.v: k_unfold, k_gram, k_eigh, k_argsort_desc, k_take, k_select_cols, k_shrink) "
                        "are opaque: their contracts (run_ok, shrink_reads_k) are hypotheses of Props/C10Gen.v; hosvd's argument validation, normxsqr / eigsumthresh "
-                       "and the final core extraction lie outside the generated region (hand transliteration hosvd_run, tied by observations)",
+                       "and the final core extraction (`G = Y` when sequential — for which C10_gen_hosvd_seq_core gives the core relation — else Y.ttm(factor_matrices, transpose=True)) "
+                       "lie outside the generated region (hand transliteration hosvd_run, tied by observations)",
                        "the numeric kernels of the GENERATED tucker_als main part (Gen/GenTuckerAls.v: k_ttm_excl, k_nvecs, k_ttm_core, k_resid, k_fit, k_absdiff, "
-                       "k_ttensor) are opaque: their contracts (excl_spec, core_spec, resid_spec, fit_spec, ttensor_spec; per-run nvecs contract sweeps_ok with "
+                       "k_ttensor) are opaque: their contracts (excl_spec, core_spec — tied to pyttb's tensor.ttm AS CALLED by the correspondence op tals_kernels on the Qc instance of "
+                       "the same value-generic definitions, C10_excl_is_model / C10_core_is_model —, resid_spec, fit_spec, ttensor_spec; per-run nvecs contract sweeps_ok with "
                        "step_ortho / step_opt or the eigen contract nvecs_eigen) are hypotheses of Props/C10W5.v; tucker_als' argument validation, the starting "
                        "guess (random / nvecs / list) and normX = input_tensor.norm() lie outside the generated region (tied by observations: ranks, iters, "
                        "per-iteration fit trace replayed through the loop model, printed lines)",
@@ -75,7 +77,12 @@ EXPLANATION = ("C10_rank_choice / C10_given_ranks / C10_ncols: theorems about th
                "valid request with maxiters > 0 and hands back the caller's Uinit (C10_gen_tals_total), returns orthonormal factors of the requested ranks with core = X x_n U_n^T over all modes "
                "and reports normresidual / fit equal to the recomputed ||X - T|| and 1 - ||X - T||/||X|| (C10_gen_tals_result), the fits of its iterations never decrease "
                "(C10_gen_tals_monotone); KY-FAN maximality of the leading eigenvectors proved (C10_kyfan_weights, C10_energy_gram, C10_kyfan_energy), so that all clauses hold under the "
-               "eigen-solver contract of the nvecs calls alone (C10_nvecs_eigen_step_both, C10_gen_tals_eigen); "
+               "eigen-solver contract of the nvecs calls alone (C10_nvecs_eigen_step_both, C10_gen_tals_eigen); the stop rule of the generated function over the reals (C10_gen_tals_stop_rule); "
+               "hosvd with sequential truncation and ANY mode order: mode products along distinct modes commute in any order (C10_ttm_order_perm), so the tensor left over by the sequential shrinks — "
+               "the core returned by the GENERATED mode loop — is X x_n U_n^T over all modes (C10_seq_core, C10_gen_hosvd_seq_core); the structural contract of hosvd over the generated loop "
+               "(C10_gen_hosvd_structure: factor k is I_k x ranks[k] with orthonormal columns, ranks EXACTLY the requested ones when given and in 1..I_k when automatic (C10_auto_rank_range), "
+               "both strategies, every mode order, under the per-run eigen-solver contract run_ok); Props/C10W5k.v: the mode-product kernel contracts are the real instance of the "
+               "value-generic model the correspondence op tals_kernels evaluates in Qc against tensor.ttm as tucker_als calls it (C10_excl_is_model, C10_core_is_model); "
                "C10_wrapped_normsq_le / C10_smaller_budget_safe (a squared norm formed in a wrapping integer type — the repaired finding C10-N02 — could not break the error bound); the correspondence recomputes every claimed "
                "relation exactly in Qc on pyttb's returned factors and core.")
 
@@ -165,7 +172,7 @@ def _scaled_copies(rng, base, big):
     """every case again with data * 2^sexp: one small, (one large), automatic-rank hosvd: one with ||X||^2 near eps; thorough: + one moderate"""
     out = []
     for c in base:
-        if "dtype" in c.args:             # integer holders cannot be scaled by 2^sexp
+        if "dtype" in c.args or c.op == "tals_kernels":             # integer holders cannot be scaled by 2^sexp; kernel cases stay exact integers
             out.append(c)
             continue
         ks = [rng.choice(SMALL)]
@@ -389,6 +396,20 @@ def gen_cases(rng, tier):
                                     "dtype": dt2}, True))
     cases.append(Case("tucker_als", {"shape": [2, 3], "data": [1, 1, 0, 1, 1, 0], "ranks": [1, 2], "maxiters": 2, "dimorder": [0, 1],
                                      "init": "nvecs", "stoptol": 0.0, "dtype": "bool"}, True))
+    # wave 5: the two mode-product kernels of tucker_als' main loop AS CALLED there — X.ttm(U, exclude_dims=n, transpose=True) and
+    # Utilde.ttm(U, n, transpose=True) — on integer data and integer factor lists (no orthonormality needed: the contracts excl_spec /
+    # core_spec of Props/C10W5.v are plain mode products); also with U[n] = None, as in the first sweep of init='random' / 'nvecs'
+    for shp in shapes:
+        d = len(shp)
+        if d < 2:
+            continue
+        for _ in range(reps):
+            rk = [rng.randint(1, x + 1) for x in shp]            # also ranks above the mode size: the kernels do not care
+            U = [[[rng.randint(-3, 3) for _ in range(rk[m])] for _ in range(shp[m])] for m in range(d)]
+            n = rng.randrange(d)
+            cases.append(Case("tals_kernels", {"shape": list(shp), "data": _tensor(rng, shp), "U": U, "n": n, "none_at_n": False, "dimorder": list(range(d))}, True))
+            n2 = rng.randrange(d)
+            cases.append(Case("tals_kernels", {"shape": list(shp), "data": _tensor(rng, shp), "U": U, "n": n2, "none_at_n": True, "dimorder": list(range(d))}, True))
     # fixed narrow holders near the top of their range (wave 5): tucker_als reports the fit of the float64 holder of the same values
     for dt2, v2 in (("int32", [91234, -30511, 77002, 45999, -99871, 30007, 61234, -88123, 52001, 39999, -70707, 98765]),
                     ("int16", [31234, -9511, 17002, 25999, -29871, 30007, 11234, -18123, 22001, 9999, -30707, 28765])):
@@ -485,6 +506,17 @@ def run_impl(c):
         def unchanged():
             return X.data.shape == before.shape and bool(np.array_equal(X.data, before))
 
+        if c.op == "tals_kernels":
+            n = a["n"]
+            U = [np.array(m, dtype=float) for m in a["U"]]
+            Ucall = [u.copy() for u in U]
+            if a["none_at_n"]:
+                Ucall[n] = None
+            Z = X.ttm(Ucall, exclude_dims=n, transpose=True)
+            C = Z.ttm(U, n, transpose=True)
+            return {"z_shape": [int(x) for x in Z.shape], "z": [rq(x) for x in np.ravel(Z.data, order="F")],
+                    "c_shape": [int(x) for x in C.shape], "c": [rq(x) for x in np.ravel(C.data, order="F")],
+                    "data_unchanged": unchanged() and all(np.array_equal(u, v) for u, v in zip(U, [np.array(m, dtype=float) for m in a["U"]]))}
         if a.get("twice") and c.op.startswith("hosvd"):      # first call on the same object; the observed call is the second one
             with contextlib.redirect_stdout(io.StringIO()), warnings.catch_warnings():
                 warnings.simplefilter("ignore")
@@ -674,6 +706,12 @@ def coq_check(c, o):
         return "false"
     if "cutoffs" in o and o["cutoffs"] != len(a["shape"]):
         return "false"
+    if c.op == "tals_kernels":
+        X = _gX(a)
+        Us = "[" + "; ".join(gqmat([[Fraction(x) for x in row] for row in m]) for m in a["U"]) + "]"
+        Z = tgen.gqdense(o["z_shape"], o["z"])
+        C = tgen.gqdense(o["c_shape"], o["c"])
+        return f"kernel_excl_ok eps9 {X} {Us} {a['n']} {Z} && kernel_core_ok eps9 {X} {Z} {Us} {a['n']} {C}"
     X, T = _gX(a), _gT(o)
     if c.op == "hosvd_auto":
         tol = Fraction(a["tol"][0], a["tol"][1])
@@ -764,6 +802,19 @@ def oracle(c, o):
         return "the call changed the caller's data array"
     if "cutoffs" in o and o["cutoffs"] != len(a["shape"]):
         return f"verbosity {a.get('verbosity')}: {o['cutoffs']} '<-- Cutoff' lines printed for {len(a['shape'])} automatically chosen modes"
+    if c.op == "tals_kernels":
+        shp_, dat_ = list(a["shape"]), [float(x) for x in a["data"]]
+        nsq = sum(x * x for x in dat_)
+        for m_, Um in enumerate(a["U"]):
+            if m_ != a["n"]:
+                shp_, dat_ = _py_ttm(shp_, dat_, m_, [[float(Um[i][j]) for i in range(len(Um))] for j in range(len(Um[0]))])
+        if shp_ != o["z_shape"] or any(abs(x - float(y)) > 1e-8 * max(1.0, nsq) for x, y in zip(dat_, o["z"])):
+            return f"X.ttm(U, exclude_dims={a['n']}, transpose=True) is not X multiplied by U_m^T in every mode m != {a['n']}"
+        Un = a["U"][a["n"]]
+        shp_, dat_ = _py_ttm(shp_, dat_, a["n"], [[float(Un[i][j]) for i in range(len(Un))] for j in range(len(Un[0]))])
+        if shp_ != o["c_shape"] or any(abs(x - float(y)) > 1e-8 * max(1.0, nsq) for x, y in zip(dat_, o["c"])):
+            return f"Utilde.ttm(U, {a['n']}, transpose=True) is not Utilde multiplied by U_n^T in mode {a['n']}"
+        return None
     shp = a["shape"]
     X = [float(x) for x in a["data"]]
     Us = [[[float(x) for x in row] for row in U] for U in o["factors"]]
